@@ -685,9 +685,15 @@ const longWords = "aaaaaaaaaa bbbbbbbbbb cccccccccc dddddddddd eeeeeeeeee ffffff
 func tokLexeme(atom string, i int) string {
 	l := string(rune('a' + i%20))
 	d := string(rune('1' + i%9))
-	switch atom {
-	case "IDENT":
+	if atom == "IDENT" {
 		return l
+	}
+	// every seventh position the one-letter payload of a literal / comment / description is a per cent sign (same width;
+	// text that passes through a formatter must not be read as a format)
+	if i%7 == 3 {
+		l = "%"
+	}
+	switch atom {
 	case "BOOL":
 		return "true"
 	case "STRING":
